@@ -1035,9 +1035,12 @@ theorem Ten.optMap_eq_some_iff {α β : Type} (f : α → Option β) (t : Ten α
     | sc _ => simp [Ten.optMap, Ten.map]
     | vec _ => simp [Ten.optMap, Ten.map]
 
-/-- indexing commutes with an `Option`-valued componentwise map that succeeds on the whole array -/
-theorem getItem_optMap {α β : Type} (f : α → Option β) (t : Ten α) (v : Ten β) (ix : List Ix)
-    (h : t.optMap f = some v) : (getItem t ix).bind (Ten.optMap f) = getItem v ix := by
+/-- an `Option`-valued componentwise map that succeeds on the whole array succeeds on every
+indexed part, with the indexed part of the result; an index is refused for both or for none -/
+theorem getItem_optMap_cases {α β : Type} (f : α → Option β) (t : Ten α) (v : Ten β) (ix : List Ix)
+    (h : t.optMap f = some v) :
+    (getItem t ix = none ∧ getItem v ix = none) ∨
+    (∃ t' v', getItem t ix = some t' ∧ getItem v ix = some v' ∧ t'.optMap f = some v') := by
   have hm := (Ten.optMap_eq_some_iff f t v).mp h
   have hn : (getItem t ix).map (Ten.map f) = (getItem v ix).map (Ten.map some) := by
     rw [← getItem_map, ← getItem_map, hm]
@@ -1045,7 +1048,7 @@ theorem getItem_optMap {α β : Type} (f : α → Option β) (t : Ten α) (v : T
   | none =>
     rw [ht] at hn
     cases hv : getItem v ix with
-    | none => rfl
+    | none => exact Or.inl ⟨rfl, rfl⟩
     | some v' => rw [hv] at hn; simp at hn
   | some t' =>
     rw [ht] at hn
@@ -1054,8 +1057,26 @@ theorem getItem_optMap {α β : Type} (f : α → Option β) (t : Ten α) (v : T
     | some v' =>
       rw [hv] at hn
       simp only [Option.map_some, Option.some.injEq] at hn
-      simp only [Option.bind_some]
-      exact (Ten.optMap_eq_some_iff f t' v').mpr hn
+      exact Or.inr ⟨t', v', rfl, rfl, (Ten.optMap_eq_some_iff f t' v').mpr hn⟩
+
+/-- indexing commutes with an `Option`-valued componentwise map that succeeds on the whole array -/
+theorem getItem_optMap {α β : Type} (f : α → Option β) (t : Ten α) (v : Ten β) (ix : List Ix)
+    (h : t.optMap f = some v) : (getItem t ix).bind (Ten.optMap f) = getItem v ix := by
+  rcases getItem_optMap_cases f t v ix h with ⟨h1, h2⟩ | ⟨t', v', h1, h2, h3⟩
+  · rw [h1, h2]; rfl
+  · rw [h1, h2]; exact h3
+
+/-- the same for successive indexing -/
+theorem getChain_optMap {α β : Type} (f : α → Option β) (chain : List (List Ix)) (t : Ten α)
+    (v : Ten β) (h : t.optMap f = some v) :
+    (getChain t chain).bind (Ten.optMap f) = getChain v chain := by
+  induction chain generalizing t v with
+  | nil => simpa [getChain] using h
+  | cons ix rest ih =>
+    simp only [getChain]
+    rcases getItem_optMap_cases f t v ix h with ⟨h1, h2⟩ | ⟨t', v', h1, h2, h3⟩
+    · rw [h1, h2]; rfl
+    · rw [h1, h2]; exact ih t' v' h3
 
 theorem mem_of_mem_eraseDups : ∀ (n : Nat) (l : List String) (s : String), l.length ≤ n →
     s ∈ l.eraseDups → s ∈ l := by
@@ -1244,6 +1265,27 @@ theorem index_function_eval (T : FunTab K) (sig : List (List String))
   unfold tensorFunction at h' ⊢
   exact getItem_optMap _ _ v ix h'
 
+/-- **chain_function_eval**: the same for successive indexing, `expr[index1][index2]...(*args)` (in
+particular `expr[i][j]`, which `index_index` identifies with `expr[i, j]`) -/
+theorem chain_function_eval (T : FunTab K) (sig : List (List String))
+    (consts : List (String × Val K)) (repl : List (String × String)) (t : Ten Expr)
+    (chain : List (List Ix)) (args : List (Val K)) (v : Ten K)
+    (h : tensorFunction T sig consts repl t args = some v) :
+    chainFunction T sig consts repl t chain args = getChain v chain := by
+  unfold chainFunction
+  have h' := tensorFunction_reprepared T sig consts repl t args v h
+  unfold tensorFunction at h' ⊢
+  exact getChain_optMap _ chain _ v h'
+
+/-- a chain of one index is the index -/
+theorem chainFunction_single (T : FunTab K) (sig : List (List String))
+    (consts : List (String × Val K)) (repl : List (String × String)) (t : Ten Expr)
+    (ix : List Ix) (args : List (Val K)) :
+    chainFunction T sig consts repl t [ix] args = indexedFunction T sig consts repl t ix args := by
+  unfold chainFunction indexedFunction
+  simp only [getChain]
+  cases getItem (Ten.map (prepare sig repl) t) ix <;> simp
+
 end field
 
 theorem Ten.map_congr {α β : Type} (f g : α → β) (t : Ten α) (h : ∀ a ∈ t.toList, f a = g a) :
@@ -1311,6 +1353,7 @@ example :
     indexedFunction (algTab : FunTab ℚ) [["x", "q"]] [] [] t [.at 1, .at 1] [Val.sc 3] = some (.sc 9) ∧
     indexedFunction (algTab : FunTab ℚ) [["x", "q"]] [] [] t [.at 1] [Val.sc 3] = some (.vec [6, 9]) ∧
     indexedFunction (algTab : FunTab ℚ) [["x", "q"]] [] [] t [.slice none none, .at 0] [Val.sc 3] = some (.vec [3, 6]) ∧
+    chainFunction (algTab : FunTab ℚ) [["x", "q"]] [] [] t [[.at 1], [.at 0]] [Val.sc 3] = some (.sc 6) ∧
     getItem t [.at 0, .at 2] = none := by
   decide +kernel
 
